@@ -40,7 +40,9 @@ type replayCase struct {
 	Order    []string          `json:"order,omitempty"`
 	DrvMain  string            `json:"drvmain,omitempty"`
 	Preamble []string          `json:"preamble,omitempty"`
-	Ops      []opCase          `json:"ops"`
+	Ops      []opCase          `json:"ops,omitempty"`
+	Class    string            `json:"class,omitempty"` // C06: injection class
+	Note     string            `json:"note,omitempty"`
 }
 
 func canonAnswer(canon, op, ans string, env *gtext.Env) string {
